@@ -101,7 +101,7 @@ def run_case(rng, idx, tier, lane, ctx):
         with contextlib.redirect_stdout(io.StringIO()), np.errstate(all="ignore"):
             JTJ = np.asarray(obj.jtj(free), dtype=float)
         counters["jtj_checks"] += 1
-        sc = float(np.max(np.abs(JTJ_ref))) + 1e-12
+        sc = float(np.max(np.abs(JTJ_ref))) + 1e-6 * float(np.max(W)) ** 2
         if JTJ.shape != JTJ_ref.shape or not np.all(np.abs(JTJ - JTJ_ref) <= 1e-5 * sc):
             bad("jtj differs from the sum of outer products of the weighted sensitivities of the observed states", got=JTJ.tolist(), expected=JTJ_ref.tolist())
         else:
@@ -123,7 +123,7 @@ def run_case(rng, idx, tier, lane, ctx):
         second_full = -2 * np.einsum("ij,ijab->ab", r, FF[:, c.obs_idx][:, :, pidx][:, :, :, pidx])
         second_trunc = -2 * np.einsum("ij,ijab->ab", r, FFt[:, c.obs_idx][:, :, pidx][:, :, :, pidx])
         H_full, H_trunc = base + second_full, base + second_trunc
-        sc = float(np.max(np.abs(H_full))) + 1e-12
+        sc = float(np.max(np.abs(H_full))) + 1e-6 * (1.0 + float(np.max(np.abs(r))))
         nontriv = bool(np.linalg.norm(second_full) >= 0.01 * np.linalg.norm(base))
         # self-check of the reference: central difference of the reference gradient along one free direction
         k = rng.randrange(len(pidx))
